@@ -85,7 +85,7 @@ def run(tier):
                     ctx_types.append(o["schema"][1 if q.startswith("SELECT c0,") else 0][1])
                 elif o.get("outcome") in ("rows", "error") and d.get("outcome") in ("rows", "error"):
                     # DESCRIBE and execution must agree on whether the statement is well-typed (runtime errors excepted)
-                    if d.get("outcome") == "error" and o.get("outcome") == "rows":
+                    if d.get("outcome") == "error" and o.get("outcome") == "rows" and q.upper().startswith(("SELECT", "WITH")):
                         add({"kind": "agree", "outcome": "describe-fails-but-statement-runs"}, info)
                 else:
                     bad = o if o.get("outcome") not in ("rows", "error") else d
@@ -121,6 +121,10 @@ def run(tier):
         for mm in [p for p in r.printed if isinstance(p, dict) and "mismatch" in p]:
             i = lmeta[mm["mismatch"]]
             sig = {"family": "types", "why": mm["why"], "tag": i["tag"]}
+            if mm["why"] == "unified-type-cannot-hold-branch":
+                sig = {"family": "types", "why": mm["why"], "decimal_involved": "DECIMAL" in i["tag"]}
+            if mm["why"] == "outcome":
+                sig = {"family": "types", "why": "outcome"}
             if mm["why"] == "outcome":
                 sig["msg"] = vlib.re.sub(r"\d+", "#", i.get("msg", ""))[:120]
                 sig["observed"] = lines[mm["mismatch"]]["outcome"]
